@@ -355,13 +355,19 @@ def _run_csrf(ctx, res, w, rng, n, Harvest) -> None:
         used: set[str] = set()
         history = []
         for step in range(rng.randrange(2, 6)):
-            kind = rng.choice(['use', 'reuse', 'reuse-later', 'cross-service', 'cross-cookie', 'tamper', 'use', 'after-logout'])
+            kind = rng.choice(['use', 'reuse', 'reuse-later', 'cross-service', 'cross-cookie', 'tamper', 'use', 'after-logout',
+                               'use-without-effect'])
             later = 0
             if kind == 'reuse-later':
                 # the same as a reuse, after the record of the first use has expired
                 kind, later = 'reuse', rng.choice([21 * 60, 3600, 25 * 3600, 20 * 60 + 1])
                 w.env.clock.advance(later)
                 res.count('csrf.reuse_after_record_lifetime')
+            no_effect = kind == 'use-without-effect'
+            if no_effect:
+                # a request that passes the token check and then changes nothing (the handler refuses its
+                # body): the token has been accepted all the same
+                kind = 'use'
             if kind in ('use', 'cross-service', 'cross-cookie', 'tamper', 'after-logout') or not issued:
                 service = 'files' if kind == 'cross-service' else 'streams'
                 tok = ha.token(service)
@@ -401,12 +407,19 @@ def _run_csrf(ctx, res, w, rng, n, Harvest) -> None:
                 a.request('GET', '/logout')
             title = f'csrf-{i}-{step}-{rng.randrange(10**6)}'
             before = w.obs.observe()
-            r = sender.request('POST', f'/stream/{w.spk}?ajax=1', json={
-                'title': title, 'directory': 'bbb', 'marlin_la_url': '', 'playready_la_url': '',
-                'timing_ref': 'bbb_v7', 'csrf_token': token})
+            body = {'title': title, 'directory': 'bbb', 'marlin_la_url': '', 'playready_la_url': '',
+                    'timing_ref': 'bbb_v7', 'csrf_token': token}
+            if no_effect:
+                body['timing_ref'] = 'no-such-file'          # refused after the token check
+            r = sender.request('POST', f'/stream/{w.spk}?ajax=1', json=body)
             after = w.obs.observe()
             diff = w.obs.diff(before, after)
-            accepted = 'Stream' in diff['tables']
+            changed = 'Stream' in diff['tables']
+            # accepted = the request got past the token check: it changed the stream, or it was answered by the
+            # handler itself rather than by the CSRF refusal (401)
+            accepted = changed or (no_effect and r.status_code != 401)
+            if no_effect:
+                res.count('csrf.accepted_without_effect' if accepted else 'csrf.no_effect_refused')
             res.count('csrf.steps')
             res.case(f'csrf|{kind}')
             history.append({'step': kind if not later else f'{kind} {later} s later', 'status': r.status_code, 'accepted': accepted})
